@@ -234,7 +234,11 @@ def run_tlc(ctx, family, module, cfg, workers=None, env=None, timeout=600, extra
                     shutil.copy(os.path.join(src, f), d)
     for f in files or []:
         shutil.copy(f, d)
-    cmd = ["java", "-XX:+UseParallelGC"]
+    # (TLC leaves an empty directory under java.io.tmpdir on every start: keep it inside the run's own directory, which goes
+    # away with the check's work directory, instead of littering /tmp)
+    jtmp = os.path.join(d, "jtmp")
+    os.makedirs(jtmp, exist_ok=True)
+    cmd = ["java", "-XX:+UseParallelGC", "-Djava.io.tmpdir=" + jtmp]
     if heap:
         cmd.append("-Xmx" + heap)
     cmd.append("-Xss64m")
